@@ -67,6 +67,26 @@ pub trait ScopedBitRead: BitRead {
     }
 }
 
+/// Appends `bit_len` bits read from `src` to the given octet-aligned `buffer`. The buffer grows in
+/// steps of at most 16K octets, each step only after the previous one has been read, so that a bogus
+/// length cannot trigger an allocation far beyond the size of the input.
+fn read_bits_chunked<T: BitRead + ?Sized>(
+    src: &mut T,
+    buffer: &mut Vec<u8>,
+    bit_len: usize,
+) -> Result<(), Error> {
+    const CHUNK_BITS: usize = LENGTH_16K as usize * BYTE_LEN;
+    let mut remaining = bit_len;
+    while remaining > 0 {
+        let chunk = remaining.min(CHUNK_BITS);
+        let start = buffer.len();
+        buffer.extend(core::iter::repeat(0u8).take((chunk + 7) / 8));
+        src.read_bits_with_len(&mut buffer[start..], chunk)?;
+        remaining -= chunk;
+    }
+    Ok(())
+}
+
 impl<T: BitRead> PackedRead for T {
     /// ITU-T X.691 | ISO/IEC 8825-2:2015, chapter 12
     #[inline]
@@ -290,8 +310,8 @@ impl<T: BitRead> PackedRead for T {
         };
 
         let mut byte_len = (bit_len + 7) / 8;
-        let mut buffer = vec![0u8; byte_len as usize];
-        self.read_bits_with_len(&mut buffer[..], bit_len as usize)?;
+        let mut buffer = Vec::new();
+        read_bits_chunked(self, &mut buffer, bit_len as usize)?;
 
         // fragmentation?
         if fragmentation_possible && bit_len >= LENGTH_16K {
@@ -361,8 +381,8 @@ impl<T: BitRead> PackedRead for T {
             )
         };
 
-        let mut buffer = vec![0u8; byte_len as usize];
-        self.read_bits(&mut buffer[..])?;
+        let mut buffer = Vec::new();
+        read_bits_chunked(self, &mut buffer, (byte_len as usize).saturating_mul(BYTE_LEN))?;
 
         // fragmentation?
         if fragmentation_possible && byte_len >= LENGTH_16K {
